@@ -418,7 +418,7 @@ func suiteShutdown(o *Out, r *Rng, n int, tier string) {
 			finish(o, "joining/"+where, js, done, l, in, "")
 		}
 		// ---- eternal source
-		for _, where := range []string{"before-run", "in-factory-1", "in-factory-2", "in-handler", "during-restart-delay"} {
+		for _, where := range []string{"before-run", "in-factory-1", "in-factory-2", "in-handler", "during-restart-delay", "after-empty-source"} {
 			l := &handlerLog{failAtK: -1}
 			var es *bstream.EternalSource
 			var inner []bstream.Source
@@ -428,18 +428,25 @@ func suiteShutdown(o *Out, r *Rng, n int, tier string) {
 			factory := bstream.SourceFromRefFactory(func(ref bstream.BlockRef, h bstream.Handler) bstream.Source {
 				calls++
 				refs = append(refs, ref.ID())
-				if (where == "in-factory-1" && calls == 1) || (where == "in-factory-2" && calls == 2) {
+				if (where == "in-factory-1" && calls == 1) || (where == "in-factory-2" && calls == 2) || (where == "after-empty-source" && calls == 3) {
 					es.Shutdown(errors.New("shutdown in factory"))
 				}
 				// the inner source delivers two blocks from inside its own Run, then (first incarnation) fails so that the
 				// eternal source restarts
 				c := calls
 				base := uint64(10 * c)
-				ps := newPushSrc(h, []TBlock{
+				blocks := []TBlock{
 					{ID: fmt.Sprintf("%da", base+1), Parent: "p", Num: base + 1},
-					{ID: fmt.Sprintf("%da", base+2), Parent: fmt.Sprintf("%da", base+1), Num: base + 2}})
+					{ID: fmt.Sprintf("%da", base+2), Parent: fmt.Sprintf("%da", base+1), Num: base + 2}}
+				if where == "after-empty-source" && c == 2 {
+					blocks = nil // the second incarnation fails before it delivers anything
+				}
+				ps := newPushSrc(h, blocks)
 				ps.before = time.Millisecond
 				ps.after = func(p *pushSrc) {
+					if where == "after-empty-source" && c == 2 {
+						p.Shutdown(errors.New("inner failure before any block"))
+					}
 					if c == 1 {
 						p.Shutdown(errors.New("inner failure"))
 						if where == "during-restart-delay" {
@@ -483,6 +490,9 @@ func suiteShutdown(o *Out, r *Rng, n int, tier string) {
 			extra := ""
 			if len(refs) >= 2 {
 				extra = " restartref=" + tok(refs[1])
+			}
+			if where == "after-empty-source" && len(refs) >= 3 {
+				extra += " restartref3=" + tok(refs[2]) // the third incarnation still starts from the last block accepted
 			}
 			finish(o, "eternal/"+where, es, done, l, in, extra)
 		}
